@@ -137,31 +137,31 @@ type lkQuery struct {
 }
 
 type lkSend struct {
-	dest                 string
-	token                string
-	ih                   string
-	port, implied        int
-	seq                  int64
-	destAddr             *net.UDPAddr
+	dest          string
+	token         string
+	ih            string
+	port, implied int
+	seq           int64
+	destAddr      *net.UDPAddr
 }
 
 type lkState struct {
-	c       *lkCase
-	rep     int
-	conn    *fakeConn
-	s       *dht.Server
-	queue   chan *lkQuery
-	gateMu  chan struct{} // 1-slot lock
-	gateCur time.Duration
-	gatePh  int
-	byAddr  map[string]*lkNode
-	nq      int
-	sends   []lkSend
-	mu      sync.Mutex
-	peers   []string
-	nDeliv  int64
-	consDone chan struct{}
-	served  map[string]int // addr -> replies with R served
+	c          *lkCase
+	rep        int
+	conn       *fakeConn
+	s          *dht.Server
+	queue      chan *lkQuery
+	gateMu     chan struct{} // 1-slot lock
+	gateCur    time.Duration
+	gatePh     int
+	byAddr     map[string]*lkNode
+	nq         int
+	sends      []lkSend
+	mu         sync.Mutex
+	peers      []string
+	nDeliv     int64
+	consDone   chan struct{}
+	served     map[string]int // addr -> replies with R served
 	gateBroken int32
 }
 
@@ -334,13 +334,13 @@ func addrTok(a *net.UDPAddr) string { return fmt.Sprintf("%s:%d", hx(a.IP.To4())
 // ---------------------------------------------------------------- one case
 
 type lkResult struct {
-	res       string
-	closed    bool
-	done      bool
-	err       error
-	getRet    getput.GetResult
-	autoSeq   int64
-	stuck     bool
+	res     string
+	closed  bool
+	done    bool
+	err     error
+	getRet  getput.GetResult
+	autoSeq int64
+	stuck   bool
 }
 
 func runLookupCase(c *lkCase, base0 int) (leak int) {
@@ -655,12 +655,18 @@ func runLookupOnce(c *lkCase, rep int, report bool) (*lkState, lkResult) {
 					a.StopTraversing()
 				}
 			}
-			if c.gated {
-				close(consumerGo) // from now on the consumer reads, slowly
-			}
-			// queries the run loop was in the middle of starting left before the stop took effect
+			// Queries the run loop was in the middle of starting when the stop came still leave (and are cancelled at
+			// once): wait until nothing moves any more, so that they are reported before the stop event.  Should one
+			// be later still, the model accepts it as what it is (drv_lookups: a TIssue that precedes the Stop).
 			time.Sleep(2 * time.Millisecond)
+			lkStableGoroutines()
 			drain()
+			if c.gated {
+				// give the announce goroutine the time to get as far as it can while nobody reads (it has to wait
+				// for Stopped, i.e. for the pending deliveries); only then does the consumer start reading, slowly
+				time.Sleep(3 * time.Millisecond)
+				close(consumerGo)
+			}
 			switch c.stopAct {
 			case "ctx":
 				say("lkctx => ok")
@@ -951,7 +957,7 @@ func (st *lkState) oracles(res *lkResult) {
 					id = [20]byte{}
 				}
 				k := addrTok(n.addr) + "|" + hx(id[:])
-				if cnt[k] < want {
+				if cnt[k] < want && c.stopAct != "close" {
 					oracle("C16", ndKey, "%d response(s) of %s, %d on Peers: %s", want, k, cnt[k], tag)
 				}
 				if cnt[k] > want {
@@ -1179,19 +1185,36 @@ func lookupCases(seed uint64, tier string) []lkCase {
 		add(c)
 	}
 
-	// ---- announce: StopTraversing with deliveries pending, then a slow but reading consumer: every response that was
-	// received must still be delivered exactly once, the channel closed, Finished fires ----
-	for ni := 0; ni < 3; ni++ {
-		r := root.sub(2700 + ni)
-		target := mkTarget(r)
-		nodes := genNet(r, 3, target)
-		for _, nd := range nodes {
-			nd.lists = nil // nothing more to ask: all three starting nodes are in flight at once (alpha = 3)
+	// ---- announce: StopTraversing / Close with deliveries pending, then a slow but reading consumer.  After
+	// StopTraversing every response that was received must still be delivered exactly once; after Close it may be
+	// given up; either way the channel is closed only after Stopped (no send on a closed channel), Finished fires.
+	// Run with announcing ON and OFF (get_peers-only traversal) through both entry points. ----
+	pendOpts := []annOpt{
+		{true, 6881, false, false, false, "port"},
+		{false, 0, false, false, false, "announce-off"},
+		{false, 0, false, false, true, "traversal-api-announce-off"},
+		{false, 0, false, true, true, "traversal-api-scrape-only"},
+		{true, 0, false, false, true, "traversal-api-port0"},
+		{true, 0, true, false, true, "traversal-api-implied"},
+	}
+	for oi, o := range pendOpts {
+		for _, act := range []string{"stoptrav", "close"} {
+			for _, at := range []int{1, 2} {
+				r := root.sub(2700 + 10*oi + at + 5*b2i(act == "close"))
+				target := mkTarget(r)
+				nodes := genNet(r, 3, target)
+				for _, nd := range nodes {
+					nd.lists = nil // nothing more to ask: all three starting nodes are in flight at once (alpha = 3)
+				}
+				name := "stoptraversing"
+				if act == "close" {
+					name = "close"
+				}
+				add(lkCase{api: "announce", sn: "ok", target: target, annOpts: o.opts, annPort: o.port, annImp: o.imp, scrape: o.scrape, viaTrav: o.viaTrav,
+					nodes: nodes, start: []int{0, 1, 2}, stopAt: at, stopAct: act, consStop: -1, slow: true, gated: true,
+					desc: fmt.Sprintf("%s-pending-deliveries-slow-consumer-%s@%d", name, o.name, at)})
+			}
 		}
-		c := lkCase{api: "announce", sn: "ok", target: target, annOpts: ni != 1, annPort: 6881, nodes: nodes, start: []int{0, 1, 2},
-			stopAt: 1 + ni%2, stopAct: "stoptrav", consStop: -1, slow: true, gated: true,
-			desc: fmt.Sprintf("stoptraversing-pending-deliveries-slow-consumer-%d", ni)}
-		add(c)
 	}
 
 	// ---- bootstrap ----
@@ -1477,6 +1500,7 @@ func lkContained(seed uint64, tier string, cases []lkCase, from, only int) {
 			if i := strings.LastIndex(f, "/"); i >= 0 {
 				f = f[i+1:]
 			}
+			f = strings.TrimPrefix(f, ".")
 			if f != "" {
 				site = f
 			}
@@ -1500,6 +1524,9 @@ func lkContained(seed uint64, tier string, cases []lkCase, from, only int) {
 			}
 		}
 		emit("oracle C01 process-died:%s case=%d scenario=%s %q last-line=%q", site, crashed, name, first, last)
+		if strings.Contains(first, "send on closed channel") {
+			emit("oracle C16 send-on-closed-peers-channel case=%d scenario=%s site=%s %q replay: h -seed %d lookups -only %d", crashed, name, site, first, seed, crashed)
+		}
 		if crashed < len(cases) && (cases[crashed].api == "get" || cases[crashed].api == "put") {
 			emit("oracle C12 client-panic-on-reply case=%d scenario=%s site=%s %q replay: h -seed %d lookups -only %d", crashed, name, site, first, seed, crashed)
 		}
